@@ -383,7 +383,7 @@ class Normalizer:
             elif isinstance(st_, ast.Assign) and len(st_.targets) == 1 and isinstance(st_.targets[0], ast.Name) and isinstance(st_.value, ast.Lambda) \
                     and not st_.value.args.vararg and not st_.value.args.kwarg:
                 self._local_fns[st_.targets[0].id] = ([a.arg for a in st_.value.args.args], st_.value.body)
-        new.body = self._block(new.body, self.cls, self.depth)
+        new.body = self._block(new.body, self.cls, self.depth, top=True)
         recs = getattr(self, "records", None)
         if recs:
             _scalar_replace_records(new, recs)
@@ -392,7 +392,7 @@ class Normalizer:
 
     # ------------------------------------------------------------------ blocks / statements
     @staticmethod
-    def _explicit_iteration(prev, st):
+    def _explicit_iteration(prev, st, last_of_function=False):
         """(target, iterable, body, orelse) if `prev; st` is a spelled-out for loop:
              it = iter(X)                                   it = iter(X)
              while (v := next(it, S)) is not S: BODY        while True:
@@ -423,11 +423,13 @@ class Normalizer:
                     and isinstance(tr.body[0].value, ast.Call) and isinstance(tr.body[0].value.func, ast.Name) and tr.body[0].value.func.id == "next" \
                     and len(tr.body[0].value.args) == 1 and isinstance(tr.body[0].value.args[0], ast.Name) and tr.body[0].value.args[0].id == it \
                     and len(tr.handlers) == 1 and (A.dotted(tr.handlers[0].type) or "") == "StopIteration" and len(tr.handlers[0].body) == 1 \
-                    and isinstance(tr.handlers[0].body[0], ast.Break) and not tr.finalbody and not uses_it(st.body[1:] + tr.orelse):
+                    and (isinstance(tr.handlers[0].body[0], ast.Break) or (
+                        last_of_function and isinstance(tr.handlers[0].body[0], ast.Return) and tr.handlers[0].body[0].value is None)) \
+                    and not tr.finalbody and not uses_it(st.body[1:] + tr.orelse):
                 return tr.body[0].targets[0], X, list(tr.orelse) + st.body[1:], []
         return None
 
-    def _block(self, stmts, cls, depth) -> List[ast.stmt]:
+    def _block(self, stmts, cls, depth, top: bool = False) -> List[ast.stmt]:
         out: List[ast.stmt] = []
         stmts = list(stmts)
         # spelled-out iteration (explicit iterator + while) is the for loop it abbreviates
@@ -439,7 +441,7 @@ class Normalizer:
                     and isinstance(stmts[i].targets[0], ast.Name) and not any(
                         isinstance(n, ast.Name) and n.id == stmts[i].targets[0].id for n in ast.walk(stmts[j])):
                 j += 1
-            ex = self._explicit_iteration(stmts[i], stmts[j]) if j < len(stmts) else None
+            ex = self._explicit_iteration(stmts[i], stmts[j], top and j == len(stmts) - 1) if j < len(stmts) else None
             if ex is not None:
                 tgt, X, body, orelse = ex
                 tgt = copy.deepcopy(tgt)
@@ -753,6 +755,31 @@ class Normalizer:
                 ast.fix_missing_locations(loop)
                 out.extend(self._stmt(loop, cls, depth))
             return out
+        # a loop over a short display of rows `for a, b in ((x1, y1), (x2, y2))`: the body once per row; constant columns are substituted,
+        # the others assigned first
+        if isinstance(st, ast.For) and isinstance(st.iter, (ast.Tuple, ast.List)) and isinstance(st.target, ast.Tuple) \
+                and all(isinstance(x, ast.Name) for x in st.target.elts) and 0 < len(st.iter.elts) <= 4 and not st.orelse \
+                and all(isinstance(r, (ast.Tuple, ast.List)) and len(r.elts) == len(st.target.elts)
+                        and all(isinstance(x, (ast.Name, ast.Attribute, ast.Constant, ast.Subscript)) for x in r.elts) for r in st.iter.elts) \
+                and len(st.body) <= 4 and not any(isinstance(n, (ast.Break, ast.Continue)) for n in _walk_own(st.body, loops=False)):
+            stored = {n.id for b in st.body for n in ast.walk(b) if isinstance(n, ast.Name) and isinstance(n.ctx, (ast.Store, ast.Del))}
+            names = [x.id for x in st.target.elts]
+            rownames = {n.id for r in st.iter.elts for x in r.elts for n in ast.walk(x) if isinstance(n, ast.Name)}
+            if len(set(names)) == len(names) and not (set(names) & rownames):
+                out = []
+                for r in st.iter.elts:
+                    sub = {}
+                    for nm, x in zip(names, r.elts):
+                        if isinstance(x, ast.Constant) and nm not in stored:
+                            sub[nm] = x
+                        else:
+                            a = ast.copy_location(ast.Assign(targets=[ast.Name(id=nm, ctx=ast.Store())], value=copy.deepcopy(x), lineno=st.lineno), st)
+                            ast.fix_missing_locations(a)
+                            out.extend(self._stmt(a, cls, depth))
+                    for b in st.body:
+                        nb = _SubstName(sub).visit(copy.deepcopy(b)) if sub else copy.deepcopy(b)
+                        out.extend(self._stmt(nb, cls, depth))
+                return out
         # a loop over a short tuple display of arbitrary expressions: the body once per element, the element assigned first
         if isinstance(st, ast.For) and isinstance(st.iter, (ast.Tuple, ast.List)) and isinstance(st.target, ast.Name) \
                 and 0 < len(st.iter.elts) <= 4 and not all(isinstance(x, ast.Constant) for x in st.iter.elts) and not st.orelse \
@@ -1178,9 +1205,10 @@ class Normalizer:
             body = [sub.visit(x) for x in body]
             binds = [(pn, v) for pn, v in binds if mapping.get(pn, pn) not in gens]
         # a parameter bound to a constant that the helper never rebinds is that constant (mode flags: `undo=False`)
-        def _simple_display(v):
-            return isinstance(v, ast.Tuple) and 0 < len(v.elts) <= 4 and all(isinstance(x, (ast.Name, ast.Attribute, ast.Constant)) and
-                                                                            not isinstance(x, ast.Starred) for x in v.elts)
+        def _simple_display(v, rows=True):
+            return isinstance(v, ast.Tuple) and 0 < len(v.elts) <= 4 and all(
+                (isinstance(x, (ast.Name, ast.Attribute, ast.Constant)) and not isinstance(x, ast.Starred)) or (rows and _simple_display(x, False))
+                for x in v.elts)
         consts = {mapping.get(pn, pn): v for pn, v in binds if pn not in rebound and (isinstance(v, ast.Constant) or _simple_display(v))}
         if consts:
             sub = _SubstName(consts)
